@@ -309,6 +309,10 @@ func (x *run) op() {
 		} else if x.strict && err == nil {
 			r.Fail("out-of-range-accepted", sigBase+":out-of-range:no-error", fmt.Sprintf("%s with an out-of-range offset returned no error (n=%d)", what, n))
 		}
+		if err != nil && n != 0 {
+			// a refused Set has copied nothing (the bytes are compared below) and says so
+			r.Fail("n", sigBase+rangeTag(inRange)+alias+":refused-but-n", fmt.Sprintf("%s failed (%v) and returned n=%d", what, err, n))
+		}
 		x.compareAll(sigBase+rangeTag(inRange)+alias, what)
 	case "Grow", "Truncate":
 		if c.Draw(5) == 4 {
